@@ -34,6 +34,7 @@ import (
 	"io"
 	"os"
 	"sort"
+	"sync/atomic"
 	"time"
 )
 
@@ -51,6 +52,8 @@ type (
 		logger log4g.Logger
 		weCh   chan WriteEvent
 		tmir   *tmirebuilder
+		// chunks TRUNCATE has removed from their journals, whose files are not deleted yet
+		chunkFilesToDelete int32
 	}
 
 	// TruncateParams allows to provide parameters for Truncate() functions
@@ -156,6 +159,12 @@ func (s *Service) Init(ctx context.Context) error {
 // Shutdown is part of linker.Shutdowner
 func (s *Service) Shutdown() {
 	s.tmir.close()
+	// The journal controller deletes the files of a removed chunk asynchronously (it waits for the readers of the
+	// chunk first). A process that exits before that finds the chunk, and its records, again at the next start:
+	// give the deletions TRUNCATE has acknowledged the time to happen (the cursors are closed by now).
+	for end := time.Now().Add(10 * time.Second); atomic.LoadInt32(&s.chunkFilesToDelete) > 0 && time.Now().Before(end); {
+		time.Sleep(time.Millisecond)
+	}
 	// Nothing else flushes the chunk writers before the process exits: records acknowledged less than
 	// WriteFlushMs ago are still in the writers' buffers. Only the last chunk of a journal can hold such
 	// records (a full chunk is synced when the writer moves on).
@@ -658,10 +667,13 @@ func (s *Service) truncate(ctx context.Context, jrnl journal.Journal, tp *Trunca
 
 	n, err = jrnl.Chunks().DeleteChunks(ctx, cks[idx].Id(), func(cid chunk.Id, filename string, err error) {
 		s.deleteChunk(filename)
+		atomic.AddInt32(&s.chunkFilesToDelete, -1)
 	})
 	if err != nil {
 		return 0, 0, errors.Wrapf(err, "truncate(): Could not truncate chunks for %v", jrnl)
 	}
+	// (the callback of a chunk nobody reads may already have run: the counter is transiently negative then)
+	atomic.AddInt32(&s.chunkFilesToDelete, int32(n))
 	return n, isize - size, nil
 }
 
